@@ -24,6 +24,12 @@ def run(prop, tier, seed, work):
     if prop == "C13":
         import checks_reject
         return checks_reject.run(prop, tier, seed, work)
+    if prop == "C17":
+        import checks_config
+        return checks_config.run17(prop, tier, seed, work)
+    if prop == "C18":
+        import checks_config
+        return checks_config.run18(prop, tier, seed, work)
     raise vlib.MachineryError("no check for " + prop)
 
 
